@@ -179,6 +179,8 @@ def case_fallback(col, p):
     for q in others:
         wb *= fx[q] / (fx[q] - fx[best_pts])
     T = Fraction(10) ** int(target) * Fraction(10 ** (target - int(target))) if mode == 'lin' else None
+    if p.get('sign_change') and mode == 'lin':
+        T = -T          # the extrapolated value has the opposite sign of the finest-grid value: no number of decades separates them
     if mode == 'lin':
         v = float((T - wb) / (1 - wb))
         yb = 1.0
@@ -200,8 +202,12 @@ def case_fallback(col, p):
             return fs
         return np.array([y0, 2.0])
 
-    f = dadi.Numerics.make_extrap_func(model, extrap_x_l=None if spectrum else [xmap[q] for q in order], extrap_log=(mode == 'log'),
-                                       fail_mag=fail_mag)
+    if p.get('wrapper') and mode == 'log' and fail_mag == 10:
+        # the log variant through its own constructor (documented threshold: 10 decades)
+        f = dadi.Numerics.make_extrap_log_func(model, extrap_x_l=None if spectrum else [xmap[q] for q in order])
+    else:
+        f = dadi.Numerics.make_extrap_func(model, extrap_x_l=None if spectrum else [xmap[q] for q in order], extrap_log=(mode == 'log'),
+                                           fail_mag=fail_mag)
     try:
         res = f(list(order))
     except Exception as e:
@@ -225,6 +231,14 @@ def case_fallback(col, p):
         dec = float(ex) / math.log(10)
     else:
         ex, _ = lagrange0([xmap[q] for q in order], ylist)
+        if ex < 0 and p.get('sign_change'):
+            # documented rule: fall back when the extrapolation lands more than fail_mag decades away; a sign change is not that - the
+            # extrapolated value is returned
+            got = float(res[0])
+            if not abs(got - float(ex)) <= 1e-9 * abs(float(ex)):
+                col.violation('C07:fallback:taken_on_sign_change', p, {'got': got, 'extrapolated': float(ex)})
+            col.distinct('nontrivial', ('fb_sign', k, tuple(order), target, fail_mag, spectrum))
+            return
         if ex <= 0:
             col.tick(skipped=1)
             return
@@ -244,7 +258,7 @@ def case_fallback(col, p):
             col.violation('C07:fallback:taken_wrongly', p, {'got': got, 'want': want, 'decades': dec, 'fail_mag': fail_mag})
     if float(res[1]) != 2.0 and abs(float(res[1]) - 2.0) > 1e-9:
         col.violation('C07:fallback:harmless_entry_changed', p, {'got': float(res[1])})
-    col.distinct('nontrivial', ('fb', k, tuple(order), target, fail_mag, mode, spectrum))
+    col.distinct('nontrivial', ('fb', k, tuple(order), target, fail_mag, mode, spectrum, bool(p.get('wrapper'))))
 
 
 def case_misc(col, p):
@@ -361,6 +375,14 @@ def run(ctx):
                             for rt in ('array', 'spectrum'):
                                 cases.append({'kind': 'fallback', 'k': k, 'order': order, 'target': sgn * (fail_mag + off),
                                               'fail_mag': fail_mag, 'mode': mode, 'rtype': rt})
+                            if mode == 'log' and fail_mag == 10:
+                                cases.append({'kind': 'fallback', 'k': k, 'order': order, 'target': sgn * (fail_mag + off), 'fail_mag': fail_mag,
+                                              'mode': mode, 'rtype': 'array', 'wrapper': True})
+                                cases.append({'kind': 'fallback', 'k': k, 'order': order, 'target': sgn * 3.0, 'fail_mag': fail_mag,
+                                              'mode': mode, 'rtype': 'array', 'wrapper': True})
+                            if mode == 'lin':
+                                cases.append({'kind': 'fallback', 'k': k, 'order': order, 'target': sgn * 0.3, 'fail_mag': fail_mag,
+                                              'mode': mode, 'rtype': 'array', 'sign_change': True})
     for what in ('no_extrap', 'scalar_pts', 'extrap_x_recorded', 'missing_x'):
         cases.append({'kind': 'misc', 'what': what})
     # determinism self-test: first case twice
